@@ -213,6 +213,8 @@ def parse_contract(text):
 def parse_contract_decls(header):
     """`void name(params)\n__CPROVER_... ;` declarations of a contracts header -> {name: (params, contract)}"""
     res = {}
+    from vlib import strip_comments
+    header = strip_comments(header)
     for m in re.finditer(r"^void\s+(\w+)\s*\(([^)]*)\)\s*((?:\s*__CPROVER_(?:requires|ensures|assigns)\s*\((?:[^;]|\n)*?\)\s*)+);",
                          header, re.M):
         params = [tuple(p.strip().rsplit(" ", 1)) for p in m.group(2).split(",") if p.strip() and p.strip() != "void"]
@@ -408,9 +410,11 @@ def mark_uninit_locals(body, rules, names):
             out.append(ind + " ".join(post))
     rules.log.append(("T9.uninit_local_decl", n_decl))
     rules.log.append(("T9.uninit_local_read_checks", n_read))
-    if n_decl != len(names):
-        raise ExtractError("T9: expected uninitialised locals %s, found %s" % (names, sorted(declared)))
-    return "\n".join(out)
+    # every candidate must be declared in the body, either with an initialiser (nothing to track) or without (tracked)
+    for v in names:
+        if v not in declared and not re.search(r"\bdouble\b[^;]*\b%s\s*=" % v, body):
+            raise ExtractError("T9: local %s is no longer declared in the body" % v)
+    return "\n".join(out), sorted(declared)
 
 
 def extract_driver(name, rules, hashes, prologue, loop_contracts, uninit=()):
@@ -427,15 +431,28 @@ def extract_driver(name, rules, hashes, prologue, loop_contracts, uninit=()):
     body = rules.sub("T6.pair_decl", r"std::pair<double,\s*double>\s+(\w+)\s*=", r"pair_t \1 =", body)
     body = rules.sub("T7.rn_push", r"\bresidual_norms_\.push_back\(", "RN_PUSH(", body)
     body = rules.sub("T7.ee_push", r"\bexact_errors_\.push_back\(", "EE_PUSH(", body)
+    body = rules.sub("T7.rn_clear", r"\bresidual_norms_\.clear\(\)", "RN_CLEAR()", body)
+    body = rules.sub("T7.ee_clear", r"\bexact_errors_\.clear\(\)", "EE_CLEAR()", body)
     body = rules.sub("T7.rn_read", r"\bresidual_norms_\[([^\]]+)\]", r"RN_READ(\1)", body)
     body = rules.sub("T8.nullptr", r"\bnullptr\b", "0", body)
     body = rules.sub("T1.writeToVTK", r"^[ \t]*writeToVTK\([^;]*\);[ \t]*$", "", body, flags=re.M)
     body = rules.sub("R7.std_math", r"\bstd::(pow|sqrt|floor)\b", r"v_\1", body)
     body = rules.sub("R7.math", r"(?<![\w.])(sqrt|pow)\s*\(", r"v_\1(", body)
     body = common_T(body, rules)
+    # T11: quotients of scalars become the uninterpreted v_div (no integer division occurs in the driver bodies)
+    OPER = r"(?:-?[A-Za-z_]\w*(?:\((?:[^()]|\((?:[^()]|\([^()]*\))*\))*\))?|-?\d+\.\d+)"
+    n_div = 0
+    while True:
+        body, k = re.subn(r"(%s)\s*/\s*(%s)" % (OPER, OPER), r"v_div(\1, \2)", body, count=1)
+        if not k:
+            break
+        n_div += 1
+    rules.log.append(("T11.quotient", n_div))
     body = join_statements(body)
+    tracked = []
     if uninit:
-        body = mark_uninit_locals(body, rules, list(uninit))
+        body, tracked = mark_uninit_locals(body, rules, list(uninit))
+    extract_driver.tracked = tracked
     body = splice_loop_contracts(body, loop_contracts, name)
     if re.search(r"\b(auto|std::)\b|::", body):
         raise ExtractError("%s: unhandled C++ construct left: %s" % (name, re.findall(r".*(?:auto|std::|::).*", body)[:3]))
